@@ -104,6 +104,31 @@ pub fn c16(a: &Args) {
             }
             out.ev(&json!({"ev":"add","via":s.replace('\x1b', "ESC"),"colors":pal_colors(&buf.palette)}));
         }
+        // colours requested through SGR 38;2 / 48;2 in every position of a longer SGR sequence (alone, followed by other attributes,
+        // two colours in one sequence), components at 0 / 1 / 255 and in between: the index the caret gets resolves to exactly the
+        // requested RGB value ("adding a colour returns an index that resolves to exactly that RGB value")
+        for k in 0..24u32 {
+            let comp = |r: &mut rand::rngs::StdRng, j: u32| -> u8 { match (k + j) % 4 { 0 => 0, 1 => 255, 2 => 1, _ => r.gen() } };
+            let (f, b) = ((comp(&mut r, 0), comp(&mut r, 1), comp(&mut r, 2)), (comp(&mut r, 3), comp(&mut r, 1), comp(&mut r, 0)));
+            let s = match k % 6 {
+                0 => format!("\x1b[38;2;{};{};{}m", f.0, f.1, f.2),
+                1 => format!("\x1b[38;2;{};{};{};1m", f.0, f.1, f.2),
+                2 => format!("\x1b[38;2;{};{};{};48;2;{};{};{}m", f.0, f.1, f.2, b.0, b.1, b.2),
+                3 => format!("\x1b[1;48;2;{};{};{};5m", b.0, b.1, b.2),
+                4 => format!("\x1b[0;38;2;{};{};{};48;2;{};{};{};4m", f.0, f.1, f.2, b.0, b.1, b.2),
+                _ => format!("\x1b[48;2;{};{};{};38;2;{};{};{}m", b.0, b.1, b.2, f.0, f.1, f.2),
+            };
+            let res = guard(|| { for ch in s.chars() { let _ = parser.print_char(&mut buf, 0, &mut caret, ch); } });
+            if res.is_err() { break; }
+            let at = caret.get_attribute();
+            let has_f = k % 6 != 3;
+            let has_b = matches!(k % 6, 2 | 3 | 4 | 5);
+            let (fr, fg_, fb) = buf.palette.get_rgb(at.get_foreground());
+            let (br, bg_, bb) = buf.palette.get_rgb(at.get_background());
+            out.ev(&json!({"ev":"addc","via":s.replace('\x1b', "ESC"),"colors":pal_colors(&buf.palette),
+                "fg": if has_f { json!({"req":[f.0, f.1, f.2],"got":[fr, fg_, fb]}) } else { json!({}) },
+                "bg": if has_b { json!({"req":[b.0, b.1, b.2],"got":[br, bg_, bb]}) } else { json!({}) }}));
+        }
     }
 
     // (4) palette files: export -> import
@@ -401,6 +426,8 @@ pub fn c19(a: &Args) {
         }
     }
     for len in [64usize, 100, 257] { let bytes: Vec<u8> = (0..len).map(|_| r.gen()).collect(); emit(str_event(&bytes), &mut outs); }
+    // every length up to a few 64-byte lines (a block loop of any width - 16, 32, 64 bytes - meets every remainder), judged bitwise
+    for len in 49..=(if thorough { 330usize } else { 200 }) { let bytes: Vec<u8> = (0..len).map(|i| if len % 2 == 0 { r.gen() } else { (i as u8).wrapping_mul(101) }).collect(); emit(str_event(&bytes), &mut outs); }
     // long inputs around powers of two (an implementation may switch algorithms by input size)
     let long: &[usize] = if thorough { &[1023, 1024, 4095, 4096, 4097, 16384, 32768, 65535, 65536, 65537, 131072, 262149] } else { &[4096, 65535, 65536, 65537, 131077] };
     for &len in long { let bytes: Vec<u8> = (0..len).map(|_| r.gen()).collect(); emit(str_event(&bytes), &mut outs); }
